@@ -18,7 +18,7 @@ def graph_from_presence(dn, directed, presence, ids=None):
     return G, m
 
 
-INT_STYLES = ("plain", "plain", "plain", "suffix", "negative")
+INT_STYLES = ("plain", "plain", "plain", "suffix", "negative", "numpy")
 STR_STYLES = ("plain", "plain", "suffix", "digits", "hash", "odd")
 
 
@@ -37,13 +37,17 @@ def node_ids(rng, n, strings):
     else:
         pool = {"plain": list(range(n)),
                 "suffix": [1, 11, 21, 2, 12, 22, 3, 13, 111, 4][:n],
-                "negative": [-1, -2, 0, 1, -11, 2, -3, 3, 4, 5][:n]}[style]
+                "negative": [-1, -2, 0, 1, -11, 2, -3, 3, 4, 5][:n],
+                "numpy": None}[style]
+        if style == "numpy":
+            import numpy as np
+            pool = [np.int64(i) for i in range(n)]      # integer ids that are not python ints
     return style, pool
 
 
 def time_base(rng):
     """0 mostly; ids crossing a digit-count boundary (9->10, 99->100); nanosecond epochs beyond 2**53"""
-    return rng.choice((0, 0, 0, 0, 7, 96, 2 ** 60, 2 ** 63 - 2))
+    return rng.choice((0, 0, 0, 0, 7, 96, 2 ** 60, 2 ** 63 - 2, -3, -3))
 
 
 def random_temporal_graph(rng, dn, strings=False, max_nodes=5, max_ids=6, p_loop=0.05, gaps=True):
